@@ -13,7 +13,7 @@ META = {
     "technique": "runtime monitoring: return values of get_tariff/get_tariffs/get_demand_charge, Interface.get_prices and the cost analysis functions compared against a direct interpretation of each JSON tariff file over the whole calendar",
     "design_ref": "DESIGN.md section 6 C17",
     "level_text": "exploration with an exhaustive calendar part: all 14 calendar types (leap/non-leap x weekday of 1 Jan) x every day x boundary instants (quick) or every minute (thorough) for all five bundled files; vector lookups across midnight/season/year boundaries; interface price vectors and cost functions on real recorded simulations",
-    "level_note": "the oracle reads the same JSON files (the data are part of the artefact under test; the oracle independently interprets seasons, wrap-around, weekday masks and breakpoints); instants are whole seconds",
+    "level_note": "the oracle reads the same JSON files (the data are part of the artefact under test; the oracle independently interprets seasons, wrap-around, weekday masks and breakpoints); instants are whole seconds plus sub-second instants around every breakpoint and at the end of the day",
 }
 LEVEL = "exploration"
 RULE = ("case = (tariff file, calendar year) enumerating every day of the year at the boundary instants (each breakpoint -1 s, "
@@ -35,7 +35,7 @@ ANCHORS = [
     "acnportal.acnsim.analysis:energy_cost",
     "acnportal.acnsim.analysis:demand_charge",
 ]
-REQUIRED = ["vector_lookups_with_periods_of_days_or_months", "lookups_judged", "vector_lookups", "interface_price_vectors", "cost_checks", "regime:wrapped-season",
+REQUIRED = ["sub_second_instants", "vector_lookups_with_periods_of_days_or_months", "lookups_judged", "vector_lookups", "interface_price_vectors", "cost_checks", "regime:wrapped-season",
             "regime:weekend", "regime:weekday", "regime:leap-day"]
 BUDGET_S = {"quick": 240, "thorough": 3000}
 EXHAUSTIVE = {"quick": "all 14 calendar types x every day x boundary instants x 5 files",
@@ -147,6 +147,16 @@ def _run_calendar(case, obs):
             for _ in range(8):
                 secs.add(rng.randrange(1440) * 60)
             instants = [d + timedelta(seconds=s) for s in sorted(secs)]
+        # sub-second instants (a start taken from datetime.now(), a measured connection time): the last fractions of a
+        # second before a breakpoint still belong to the earlier rate, the first after it to the later one
+        for b in bps:
+            s = int(b * 3600)
+            for us in (-1, -250000, -500000, -999999, 1, 500000):
+                x = d + timedelta(seconds=s, microseconds=us)
+                if x.date() == d.date():
+                    instants.append(x)
+                    obs.ev("sub_second_instants")
+        instants.append(d + timedelta(seconds=86399, microseconds=999999))
         for i, dt in enumerate(instants):
             n += 1
             ok = _judge(obs, tar, orc, dt, name, want_demand=(i % 7 == 0))
@@ -196,6 +206,9 @@ def _run_vector(case, obs):
             start = datetime(year, mon, day, rng.randint(18, 23), rng.choice([0, 30])) - timedelta(days=rng.choice([0, 1]))
         except ValueError:
             start = datetime(year, mon, 28, 22, 0)
+    if rng.random() < 0.3:
+        start += timedelta(seconds=rng.choice([0, 29, 59]), microseconds=rng.choice([0, 1, 500000, 750000, 999999]))
+        obs.ev("vector_lookups_from_sub_second_starts")
     if rng.random() < 0.2:
         import pytz
         start = pytz.timezone("America/Los_Angeles").localize(start)
@@ -242,6 +255,10 @@ def _run_sim(case, obs):
                      period=rng.choice([1, 5, 7.5, 15, 60]))
     year = rng.choice(_years())
     d["start"] = [year, rng.randint(1, 12), rng.randint(1, 28), rng.choice([0, 8, 12, 18, 21, 23]), rng.choice([0, 15, 30, 45])]
+    if rng.random() < 0.4:
+        d["start"] += [rng.choice([0, 59]), rng.choice([0, 750000, 999999])]
+        if d["period"] == 1 or rng.random() < 0.5:
+            d["start"][4] = rng.choice([29, 59, 30])  # so that 1-minute steps land within a second of the half-hour breakpoints
     sch = build.build_scheduler(d)
     seen = []
 
